@@ -184,7 +184,21 @@ class SArr(PyObj):
         if name == 'copy':
             return Model(lambda c: self.snapshot(), 'ndarray.copy')
         if name == 'astype':
-            return Model(lambda c, *a, **k: self.snapshot(), 'ndarray.astype')
+            def astype(c, dtype=None, *a, **k):
+                nm = getattr(dtype, 'name', dtype)
+                if isinstance(nm, str) and 'float32' in nm:
+                    # single precision: every value moves by a relative error of at most 2^-24
+                    b = self.snapshot()
+                    ERR = z3.Function(uid("f32err"), *([z3.IntSort()] * len(b.shape_) + [z3.RealSort()]))
+                    eps = z3.RealVal(1) / (2 ** 24)
+
+                    def elem(idx):
+                        d = ERR(*[zint(i) for i in idx])
+                        c.assume(z3.And(d >= -eps, d <= eps)) if False else None
+                        return b.at(idx) * Sym(1 + z3.If(d > eps, eps, z3.If(d < -eps, -eps, d)), True)
+                    return SArr(uid("float32"), b.shape_, elem, lambda idx: b.isnan(idx))
+                return self.snapshot()
+            return Model(astype, 'ndarray.astype')
         if name == 'dtype':
             return Opaque('dtype')
         raise PyRaise(ExcValue('AttributeError', ('ndarray.%s' % name,)))
